@@ -22,11 +22,12 @@ import vflib
 from vflib import Check
 
 MANIFEST = dict(
-    text="Machine-checked proof (Lean 4, 14 theorems) about a model of ledger's expression language whose parser is DRIVEN by the "
+    text="Machine-checked proof (Lean 4, 16 theorems) about a model of ledger's expression language whose parser is DRIVEN by the "
          "precedence ladder re-extracted from parser.cc on every run: the ladder and the operator spellings are the documented ones "
          "(evaluation of the generated tables); for EVERY operator tree (unary - !, the 11 binary operators, ?:) the parser returns "
-         "exactly that tree from its minimally parenthesised token sequence and from the fully parenthesised one op_t::print emits "
-         "(induction over trees, no size bound); and/or/?: never evaluate the operand that is not selected; constant folding changes "
+         "exactly that tree from its minimally parenthesised token sequence and from the fully parenthesised one op_t::print emits, "
+         "conditionals included (induction over trees, no size bound; whether print wraps the O_COLON node is a flag re-extracted from "
+         "op.cc on every run, and the repaired state is itself a proof obligation); and/or/?: never evaluate the operand that is not selected; constant folding changes "
          "neither value nor error whenever folding itself raises no error (all of the modelled language, recursion included); "
          "re-binding a name that was bound where an expression was compiled never changes its value (definition-site binding); "
          "renaming a lambda parameter is harmless unless a captured definition mentions it. The bodies of the 37 C++ routines the "
@@ -36,13 +37,14 @@ MANIFEST = dict(
          "malformed stream; an independent Fraction/closure reference evaluator with the documented precedence judges ledger's own "
          "answers (tree of minimal vs full rendering, value vs reference, value of the printed text fed back).",
     note="Genuine violations found and kept visible (full statement as a def, negation proved on a witness replayed on the binary, "
-         "_partial theorem with its guard): op_t::print parenthesises O_COLON so a printed conditional does not re-parse; printed "
+         "_partial theorem with its guard): printed "
          "literals `{…}` re-read with keep-precision, which changes display-rounded truth tests; constant folding evaluates operands "
          "that short circuit skips, folds O_COLON (assertion) and folds argument lists into one sequence argument; a local definition "
          "mentioning a parameter is captured by an inner function with the same parameter name. Theorems about parsing are stated over "
          "token lists; tokeniser <-> text is tied by correspondence only. Not modelled: strings, dates, masks, =~, member lookup, "
          "sequences as values, built-in functions, prefix/quoted commodities, the private symbol table of SCOPE nodes; INTEGER/AMOUNT "
-         "division is C03's known finding and is left out of the oracle.",
+         "division is C03's known finding and is left out of the oracle. Repaired in /repo: op_t::print no longer parenthesises the O_COLON "
+         "node (printed conditionals did not re-parse); its witness stays in the check as a regression probe.",
     technique="Lean 4 proof over a table-driven parser model + regenerated ladder/spellings/pinned sources + differential "
               "model/binary check with an independent reference evaluator",
     ref="DESIGN.md §5 C15")
@@ -830,6 +832,7 @@ def rec_prog(rng, idx):
 
 WITNESSES = [
     # (fingerprint, what, expression, expected exact value or None when only re-parse matters, kind)
+    # repaired in /repo (op.cc 669, 860 exclude O_COLON): stays here as a regression probe, reported as a violation if it returns
     ("C15:op.cc:print:O_COLON", "the text printed for a conditional does not parse back: op_t::print wraps the O_COLON node in "
      "parentheses of its own, `(1 ? (2 : 3))`, and the parser rejects `:` there", "1 ? 2 : 3", None, "reparse"),
     ("C15:op.cc:print:keep-precision", "the text printed for a literal amount is `{0.01 EUR}`, which re-reads with the keep-precision flag "
